@@ -98,10 +98,26 @@ theorem agree_expr {env : Env} {senv : SEnv} {names : List String} {B cur : Nat}
       exact ⟨ihl hok.1 (k + 1) (by omega), ihl hok.1 k (by omega)⟩
     · simp only [goTyI, specI, h, if_false, agreeb, Bool.and_eq_true]
       exact ⟨ihl hok.1 (k + 1) (by omega), ihr hok.2 (k + 1) (by omega)⟩
-  | hashmapE n v _ =>
+  | hashmapE n v ih =>
     intro k hk
-    obtain ⟨k, rfl⟩ : ∃ k', k = k' + 1 := ⟨k - 1, by simp [TExpr.depth] at hk; omega⟩
-    simp [goTyI, specI, agreeb]
+    simp only [TExpr.depth] at hk
+    obtain ⟨k, rfl⟩ : ∃ k', k = k' + 2 := ⟨k - 2, by omega⟩
+    simp only [exprOkI, Bool.and_eq_true, Bool.or_eq_true, decide_eq_true_eq, beq_iff_eq] at hok
+    have hv := ih hok.2 (k + 1) (by omega)
+    have hkey : keyWidth (dictKeyTy n) = some n ∧ agreeb env senv (k + 1) (dictKeyTy n) (dictKeySpec n) = true := by
+      unfold dictKeyTy dictKeySpec
+      by_cases h64 : n ≤ 64
+      · simp [h64, keyWidth, agreeb]
+      · rcases hok.1 with h | h
+        · exact absurd h h64
+        · have : n / 8 * 8 = n := by omega
+          simp [h64, keyWidth, agreeb, this]
+    have hstep : agreeb env senv (k + 2) (.dictE (dictKeyTy n) (goTyI names v)) (.hashmapE n (dictKeySpec n) (specI v)) =
+        (keyWidth (dictKeyTy n) == some n && agreeb env senv (k + 1) (dictKeyTy n) (dictKeySpec n) &&
+          agreeb env senv (k + 1) (goTyI names v) (specI v)) := rfl
+    simp only [goTyI, specI]
+    rw [hstep, hkey.1, hkey.2, hv]
+    simp
 
 theorem agree_field {env : Env} {senv : SEnv} {names : List String} {B cur : Nat} (hp : Prev env senv names B cur)
     (e : TExpr) (hok : fieldOk names cur e = true) :
